@@ -208,6 +208,8 @@ def main():
             resume = True
         elif a == "--extra":
             extra = args.pop(0).split(",")
+        elif a == "--rerun-survivors":
+            resume = "survivors"
         elif a == "--summary":
             summary()
             return
@@ -215,12 +217,29 @@ def main():
     head = subprocess.run(["git", "-C", "/repo", "rev-parse", "--short", "HEAD"], capture_output=True, text=True).stdout.strip()
     done = set()
     respath = os.path.join(OUT, "results.jsonl")
-    if resume and os.path.exists(respath):
+    if resume == "survivors":
+        # the mutants that no check reported when they were last tried, against the checks as they are now
+        last = {}
+        for l in open(respath):
+            d = json.loads(l)
+            last[(d["file"], d["line"], d["kind"], d["new"])] = d
+        ms = []
+        for d in last.values():
+            if d["status"] == "survived" and (not files or d["file"] in files):
+                src = open(os.path.join("/repo", d["file"])).read().split("\n")
+                old = src[d["line"] - 1]
+                if old.strip() != d["old"]:
+                    continue  # the line has changed since (a repair in /repo)
+                ind = old[:len(old) - len(old.lstrip())]
+                ms.append({"file": d["file"], "line": d["line"] - 1, "kind": d["kind"], "new": ind + d["new"], "head": head, "extra": extra})
+        files = []
+    elif resume and os.path.exists(respath):
         for l in open(respath):
             d = json.loads(l)
             done.add((d["file"], d["line"], d["kind"], d["new"]))
-    ms = []
-    for rel in (files or list(MAP)):
+    if resume != "survivors":
+        ms = []
+    for rel in ([] if resume == "survivors" else (files or list(MAP))):
         seen = set()
         for ln, kind, new in mutants_of(os.path.join("/repo", rel), rel):
             key = (rel, ln + 1, kind, new.strip())
